@@ -104,7 +104,10 @@ static mjModel* build(const char* mname, const char* wname, strlist* T, char* er
   for (int i = 0; i < T[mjOBJ_JOINT].n; i++) {
     if (!nb) FAIL("bad-spec: joint without body");
     mjsJoint* j = mjs_addJoint(bodies[i % nb], NULL);
-    j->type = (i / nb) % 2 ? mjJNT_SLIDE : mjJNT_HINGE;
+    int k = (i / nb) % 6;                      // <= 6 dofs per body: slides along x,y,z then hinges about x,y,z
+    j->type = k < 3 ? mjJNT_SLIDE : mjJNT_HINGE;
+    j->axis[0] = (k % 3) == 0; j->axis[1] = (k % 3) == 1; j->axis[2] = (k % 3) == 2;
+    j->armature = 0.1;
     NAME(j->element, T[mjOBJ_JOINT].v[i]);
   }
   for (int i = 0; i < T[mjOBJ_GEOM].n; i++) {
